@@ -3,7 +3,8 @@ sys.path.insert(0, os.path.dirname(os.path.dirname(os.path.abspath(__file__))))
 from symex import stubs
 ID = "C08"
 PATTERNS = ["./net/ntske", "./net/nts", "./net/ntp", "./net/csptp"]
-HARNESS_FILES = ["net/ntske/zz_verif_c08.go", "net/nts/zz_verif_c08.go"]
+HARNESS_FILES = ["net/ntske/zz_verif_c08.go", "net/nts/zz_verif_c08.go", "net/ntske/zz_verif_c20.go", "net/ntske/zz_verif_c20f.go"]
+SKIP_ASSERT_PREFIXES = ["C20.", "C14."]   # the NTS-KE stream harness is shared with C20: here only its panic / unwinding obligations count
 N = "example.com/scion-time/net/nts."
 K = "example.com/scion-time/net/ntske."
 INSTALL = [stubs.install_aead]
@@ -16,6 +17,8 @@ HARNESSES = [
     {"name": "ntsprocess40", "fn": N + "VerifC08NTSProcess40", "bounds": "every datagram of 48..88 bytes, arbitrary 32-byte key, ideal AEAD", "unwind_is_violation": True, "replay_timeout": 20, "cfg": {"aead_bound": 88}},
     {"name": "authwalk28", "fn": N + "VerifC08AuthWalk28", "bounds": "every 28-byte plaintext sealed by the real encoder", "unwind_is_violation": True, "replay_timeout": 20},
     {"name": "authwalk36", "fn": N + "VerifC08AuthWalk36", "bounds": "every 36-byte plaintext sealed by the real encoder", "unwind_is_violation": True, "replay_timeout": 20},
+    {"name": "kestream12", "fn": K + "VerifC20ReadData12", "install": [stubs.install_stream], "cfg": {"default_unwind": 8, "copy_bound": 24},
+     "bounds": "ntske.ReadData on every NTS-KE record stream of 0..12 bytes (<= 3 records) in every segmentation into reads: no panic, loops within their unwinding bounds"},
     {"name": "authwalk60", "fn": N + "VerifC08AuthWalk60", "bounds": "every 60-byte plaintext sealed by the real encoder", "unwind_is_violation": True, "replay_timeout": 20, "thorough_only": True},
     {"name": "encryptedcookie40", "fn": K + "VerifC08EncryptedCookieDecode40", "bounds": "every byte string of 0..40 bytes", "thorough_only": True},
     {"name": "servercookie40", "fn": K + "VerifC08ServerCookieDecode40", "bounds": "every byte string of 0..40 bytes", "thorough_only": True},
@@ -23,5 +26,5 @@ HARNESSES = [
 ASSUMPTIONS = []
 EXPLANATION = ""
 CLAIMED = True
-LEVEL_TEXT = "Bounded model checking of the real decoders on fully symbolic buffers of every length up to the tier bound: ntske cookie decoders and Decrypt, nts.DecodePacket, ProcessRequest/authenticate (incl. the walk over decrypted fields sealed by the real encoder). The obligations are the engine's built-in ones: no reachable panic (index, slice bounds, nil, explicit panic, AEAD nonce-length panic) and every loop terminates within its unwinding bound (an unwinding obligation that is satisfiable IS the hang and is replayed natively under a time limit)."
-LEVEL_NOTE = "buffers: cookies <= 16 (quick) / 40 bytes, NTS datagrams <= 80/88 (quick) bytes, plaintext walks 28/36/60 bytes; ideal AEAD; NOT covered by a harness yet: the socket loops themselves (runIPServer, runSCIONServer, CSPTP listener/client, NTS-KE server, SCION forwarder), udp.TimestampFromOOBData, scion auth option parsing, NTS-KE record stream (C20 covers ReadData), gopacket/slayers/quic-go internals."
+LEVEL_TEXT = "Bounded model checking of the real decoders on fully symbolic buffers of every length up to the tier bound: ntske cookie decoders and Decrypt, ntske.ReadData (record streams <= 12 bytes), nts.DecodePacket, ProcessRequest/authenticate (incl. the walk over decrypted fields sealed by the real encoder). The obligations are the engine's built-in ones: no reachable panic (index, slice bounds, nil, explicit panic, AEAD nonce-length panic) and every loop terminates within its unwinding bound (an unwinding obligation that is satisfiable IS the hang and is replayed natively under a time limit)."
+LEVEL_NOTE = "buffers: cookies <= 16 (quick) / 40 bytes, NTS datagrams <= 80/88 (quick) bytes, plaintext walks 28/36/60 bytes; ideal AEAD; NOT covered by a harness yet: the socket loops themselves (runIPServer, runSCIONServer, CSPTP listener/client, NTS-KE server, SCION forwarder), udp.TimestampFromOOBData, scion auth option parsing, gopacket/slayers/quic-go internals."
